@@ -429,7 +429,12 @@ func runPair(c *vkit.Ctx, f Fault, idx int) pairResult {
 		want, ok := produced[id]
 		if !ok {
 			if id == plantedName {
-				continue // a planted file with a valid name is indistinguishable from a chunk for the buffer
+				// a planted file with a valid name is indistinguishable from a chunk for the buffer - except an empty one,
+				// which the buffer treats as corrupt: it must be removed and counted, not forwarded
+				if strings.HasSuffix(dg, ":0") {
+					add("forwarded-empty", fmt.Sprintf("the zero-length file %s found at startup was forwarded as a chunk (fault %s)", id, f.id()))
+				}
+				continue
 			}
 			add("forwarded-unknown", fmt.Sprintf("recovery forwarded %s which was never produced", id))
 			continue
@@ -513,7 +518,7 @@ func buildFaults(c *vkit.Ctx) []Fault {
 			fs = append(fs, Fault{Kind: "shutdown-fsize", K: k, Pos: 0, Size: n, NSpill: nspill})
 		}
 		for _, pt := range points {
-			fs = append(fs, Fault{Kind: "shutdown-kill", Point: pt, Hit: 1 + si%warm, Pos: 0, Size: n, NSpill: nspill})
+			fs = append(fs, Fault{Kind: "shutdown-kill", Point: pt, Hit: 1 + si%2, Pos: 0, Size: n, NSpill: nspill})
 		}
 	}
 	for _, pl := range []string{"zero", "truncated", "garbage", "unmatched", "directory", "unreadable"} {
